@@ -156,6 +156,29 @@ fn judge06(_cfg: &Cfg, _m: &mut M06, tr: &Transition, rep: Option<&mut Report>) 
                 if u.used.is_some() {
                     r.inc("snapshots_with_consensus");
                 }
+                // vacuity bookkeeping for the multi-source combine step: how many estimates were
+                // merged, and was one of them exactly singular (det == 0, no dispersion added)?
+                if let Some(used) = &u.used {
+                    if used.len() >= 2 {
+                        r.inc("combines_of_2_or_more_sources");
+                        if used.len() >= 3 {
+                            r.inc("combines_of_3_sources");
+                        }
+                        let singular = |id: &u64| {
+                            u.table.iter().any(|(tid, _, f, disp)| {
+                                tid == id && *disp == 0 && f.is_some_and(|f| f[2] * f[5] - f[3] * f[4] == 0.0)
+                            })
+                        };
+                        if used.iter().any(singular) {
+                            r.inc("combines_of_2_or_more_with_a_singular_covariance");
+                            if u.src != 0 && singular(&u.src) {
+                                r.inc("combines_with_singular_source_triggered_by_its_own_message");
+                            } else {
+                                r.inc("combines_with_singular_source_triggered_by_another_message");
+                            }
+                        }
+                    }
+                }
             }
         }
         match &u.end {
@@ -350,6 +373,7 @@ fn check() {
     let (d_core, d_full) = if quick { (3, 1) } else { (4, 2) };
     let d_per = if quick { 3 } else { 5 };
     let d_jit = if quick { 2 } else { 3 };
+    let d_sing = if quick { 3 } else { 4 };
     ctx.rule(&format!(
         "From each of 8 pre-built post-initialisation states (8 benign / 8 identical / 8 alternating-extreme samples x two-way A / one-way G, plus benign two-way next to alternating-extreme one-way and vice versa) and for 2 configurations \
          (shipped algorithm defaults; maximum_source_uncertainty unlimited so that extreme estimates are selected and steered on), BFS over all measurement histories of \
@@ -360,6 +384,8 @@ fn check() {
          Plus large-common-value-plus-tiny-jitter cases: 8-sample initialisation bursts with offset base {{+-60, +-3600, +-86400, +-1e6, +-2^29 s}} (two-way and one-way) or delay base \
          {{1, 3600, 65535 s}} x jitter scale {{2^-32 s, 1 us, 1 ms}} x pattern {{monotone, alternating; thorough also irregular}} x configuration {{quorum 2 = nothing steered before the 8th sample, \
          quorum 1, all sources selectable}}, each followed by all histories of <= {d_jit} events over an 11-symbol alphabet built around the same base and jitter. \
+         Plus exactly-singular-covariance cases: a source with identical (sub-floor or equal) delays and/or identical initial offsets next to 1 or 2 healthy agreeing sources in their Kalman stage, \
+         quorum 1|2, both merge orders, <= {d_sing} events over a 10-symbol alphabet that keeps the delays identical (own-message and other-message triggered combines, root dispersion 0 and max). \
          States deduplicated on exact bit patterns. Distinct & non-trivial = distinct end state reached by a transition that invoked the controller.",
         core.len(),
         full.len()
@@ -544,6 +570,67 @@ fn check() {
         }
     }
     ctx.set("jitter_burst_explorations", jitter_specs);
+    // exactly singular covariance inside a multi-source combine: a source whose measurement
+    // noise estimate is exactly 0 (all buffered delays identical: below the MIN_DELAY floor, or
+    // simply equal) and/or whose 8 initial offsets are identical has covariance [[0,0],[0,c]]
+    // right after its own message (dt = 0, no process noise). Here it is always accompanied by
+    // one or two healthy agreeing sources already in their Kalman stage, under quorum 1 and 2 and
+    // both merge orders, and the alphabet keeps its delays identical, so that select+combine
+    // merges >= 2 snapshots one of which is singular - triggered by its own and by other messages.
+    let mut singular_specs = 0u64;
+    {
+        // (name, singular source, its burst, the delay that keeps its noise estimate at 0)
+        let kinds: Vec<(&str, u8, Ev, i64)> = vec![
+            ("two-way sub-floor delays, distinct offsets", A, Ev::burst(A, 0, 1, S, 8, MS / 10, 0), 1),
+            ("two-way sub-floor delays, identical offsets", A, Ev::burst(A, 0, 1, S, 8, 0, 0), 1),
+            ("two-way identical 1 ms delays and offsets", A, Ev::burst(A, 0, MS, S, 8, 0, 0), MS),
+            ("one-way identical offsets", G, Ev::burst(G, 0, 0, S, 8, 0, 0), 0),
+        ];
+        for (kname, x, xburst, d) in &kinds {
+            let (x, d) = (*x, *d);
+            // companions: one or two of the other sources, benign, in their Kalman stage
+            let others: Vec<u8> = [A, B, G].into_iter().filter(|s| *s != x).collect();
+            for ncomp in [1usize, 2] {
+                let comp = &others[..ncomp];
+                let benign = |s: u8| {
+                    if s == G { Ev::burst(G, 0, 0, S, 8, MS / 10, 0) } else { Ev::burst(s, 0, MS, S, 8, MS / 10, MS / 50) }
+                };
+                let mut prefix = prefix_usable();
+                for &c in comp {
+                    prefix.push(benign(c));
+                }
+                prefix.push(xburst.clone());
+                let y = comp[0];
+                let yd = if y == G { 0 } else { MS };
+                let follow: Vec<Ev> = vec![
+                    m(x, 0, d, S),
+                    m(x, 1, d, DT_MS),
+                    m(x, -1, d, DT_BIG),
+                    m(x, 50 * US, d, S),
+                    m(x, 0, d, S).with_root(MAX_SHORT, MAX_SHORT),
+                    m(y, 0, yd, S),
+                    m(y, 1, yd, DT_MS),
+                    m(*comp.last().unwrap(), 20 * US, if *comp.last().unwrap() == G { 0 } else { MS }, S),
+                    Ev::Usable { src: y, on: false },
+                    Ev::Tick,
+                ];
+                for min_agree in [1usize, 2] {
+                    for order in [0u8, 1] {
+                        specs.push(Spec {
+                            rank: 0,
+                            name: format!("singular/{kname}/{ncomp} companion(s)/quorum{min_agree}/ord{order}"),
+                            cfg: Cfg { min_agree, order, ..Cfg::default() },
+                            prefix: prefix.clone(),
+                            alphabet: follow.clone(),
+                            depth: d_sing,
+                        });
+                        singular_specs += 1;
+                    }
+                }
+            }
+        }
+    }
+    ctx.set("singular_covariance_explorations", singular_specs);
     ctx.note(
         "alphabet_periodic",
         &periodic
